@@ -40,6 +40,7 @@ func vUnwind(n int)          {}
 func vSteps(n int)           {}
 func vSliceCap(n int)        {}
 func vSincePositive()        {}
+func vStartAgo(ns int64) time.Time { return time.Now().Add(-time.Duration(ns)) }
 func vParam(name string) int { return int(vModel[name]) }
 
 // ---- text vocabulary (native bodies build real strings with the requested display width)
